@@ -4,3 +4,4 @@ open GrVerif.Props.C08
 #print axioms glyph_is_what_the_tables_say
 #print axioms hinted_advance_history_independent
 #print axioms hinted_advance_values
+#print axioms glyph_attribute_is_what_glat_says
